@@ -28,7 +28,8 @@ def suite(wt, feats):
     return res, out
 
 
-def confirm(seed, feats="", demo_feats=None):
+def confirm(seed, feats="", demo_feats=None, paste=None, filt=None):
+    """paste/filt: the demonstration is a unit test to be pasted at the end of `mod tests` of the private module file `paste` (C20)."""
     seed = os.path.abspath(seed)
     demo_feats = feats if demo_feats is None else demo_feats
     tmp = tempfile.mkdtemp(prefix="seedchk-", dir="/tmp")
@@ -38,16 +39,33 @@ def confirm(seed, feats="", demo_feats=None):
     try:
         subprocess.run(["git", "-C", "/repo", "worktree", "add", "-q", "--detach", wt, "HEAD"], check=True)
         name = "demo_seed"
-        shutil.copy(os.path.join(seed, "demo.rs"), os.path.join(wt, "tests", name + ".rs"))
-        base, _ = suite(wt, feats)
-        rc, out = sh("cargo test --offline --test %s %s 2>&1" % (name, demo_feats), wt)
+        if paste:
+            def add_demo():
+                fp = os.path.join(wt, paste); t = open(fp).read().rstrip()
+                assert t.endswith("}")
+                open(fp, "w").write(t[:-1] + "\n" + open(os.path.join(seed, "demo.rs")).read() + "\n}\n")
+            base, _ = suite(wt, feats)
+            add_demo()
+            demo_cmd = "cargo test --offline --lib %s %s 2>&1" % (filt, demo_feats)
+        else:
+            shutil.copy(os.path.join(seed, "demo.rs"), os.path.join(wt, "tests", name + ".rs"))
+            base, _ = suite(wt, feats)
+            demo_cmd = "cargo test --offline --test %s %s 2>&1" % (name, demo_feats)
+        rc, out = sh(demo_cmd, wt)
+        if paste and not re.search(r"test result: ok\. [1-9]", out): rc = 1   # the filter must select at least one test
         rep["demo_clean_passes"] = rc == 0
         if rc != 0: rep["demo_clean_tail"] = out[-1500:]
         a = subprocess.run(["git", "apply", os.path.join(seed, "patch.diff")], cwd=wt, capture_output=True, text=True)
         rep["patch_applies"] = a.returncode == 0
         if a.returncode != 0:
             rep["apply_err"] = a.stderr; return rep
-        pat, pout = suite(wt, feats)
+        pat, pout = suite(wt, feats) if not paste else (None, None)
+        if paste:
+            # suite on the patched tree WITHOUT the pasted demo, then paste it again
+            sh("git checkout -- %s" % paste, wt)
+            a2 = subprocess.run(["git", "apply", os.path.join(seed, "patch.diff")], cwd=wt, capture_output=True, text=True)
+            pat, pout = suite(wt, feats)
+            add_demo()
         rep["compiles"] = bool(pat)
         if not pat: rep["build_tail"] = pout[-1500:]
         diff = {k: (base.get(k), pat.get(k)) for k in set(base) | set(pat) if base.get(k) != pat.get(k) and not k.startswith("demo_") and "test_non_perturbed_z" not in k
@@ -58,7 +76,7 @@ def confirm(seed, feats="", demo_feats=None):
         rep["suite_unchanged"] = not diff
         rep["suite_diff"] = diff
         rep["suite_counts"] = {"clean_ok": sum(v == "ok" for v in base.values()), "patched_ok": sum(v == "ok" for v in pat.values())}
-        rc, out = sh("cargo test --offline --test %s %s 2>&1" % (name, demo_feats), wt)
+        rc, out = sh(demo_cmd, wt)
         rep["demo_patched_fails"] = rc != 0
         rep["demo_patched_tail"] = "\n".join(l for l in out.splitlines() if re.match(r"test |test result|thread ", l))[-1200:]
         rep["confirmed"] = bool(rep["demo_clean_passes"] and rep["compiles"] and rep["suite_unchanged"] and rep["demo_patched_fails"])
@@ -84,7 +102,9 @@ if __name__ == "__main__":
     if mode == "confirm":
         feats = sys.argv[sys.argv.index("--features") + 1] if "--features" in sys.argv else ""
         dfe = sys.argv[sys.argv.index("--demo-features") + 1] if "--demo-features" in sys.argv else None
-        r = confirm(seed, feats, dfe)
+        paste = sys.argv[sys.argv.index("--paste") + 1] if "--paste" in sys.argv else None
+        filt = sys.argv[sys.argv.index("--filter") + 1] if "--filter" in sys.argv else None
+        r = confirm(seed, feats, dfe, paste, filt)
         print(json.dumps(r, indent=1))
         sys.exit(0 if r.get("confirmed") else 1)
     else:
